@@ -130,6 +130,13 @@ func (b *backendConfigSessionHandler) Activated() {
 
 // Disconnected is called when the session handler is disconnected.
 func (b *backendConfigSessionHandler) Disconnected() {
+	// During a reconfiguration this handler is the active one, not the play handler that
+	// recorded the player on the server when it had joined: a connection that ends now has
+	// to take the player off the server's list here, or the record outlives the connection
+	// (player counts and lists, carriers of forwarded plugin messages).
+	if b.serverConn.completedJoin.Load() {
+		b.serverConn.server.players.remove(b.serverConn.player)
+	}
 	b.requestCtx.result(nil, errors.New("unexpectedly disconnected from remote server"))
 }
 
